@@ -226,7 +226,12 @@ def run_sequence_fast(seq, acc, init_auto=0):
                           {"kind": "seq", "seq": seq[:i + 1], "expected": exp, "got": got}, py=_py_seq(seq[:i + 1]))
             return ("viol",)
     # final observable state must equal the model's too
-    fin = (ins_ns(clock.get_current_instant()) if MIN_NS <= st[0] + st[1] <= MAX_NS else None, clock.auto_advance.to_nanoseconds())
+    try:
+        fin = (ins_ns(clock.get_current_instant()) if MIN_NS <= st[0] + st[1] <= MAX_NS else None, clock.auto_advance.to_nanoseconds())
+    except (ValueError, OverflowError) as e:
+        acc.violation("C19/seq/final-read-raises", "after %r a read raised %r although the model stays inside the Instant range" % (seq, e),
+                      {"kind": "seq", "seq": seq}, py=_py_seq(seq))
+        return ("viol",)
     exp_fin = (st[0] if fin[0] is not None else None, st[1])
     if fin != exp_fin:
         acc.violation("C19/seq/final-state", "after %r the clock is at %r, model says %r" % (seq, fin, exp_fin),
